@@ -659,6 +659,10 @@ func fileCells() []Cell {
 	add("file-sig-linecomment", "package main\n\ntempl t(a string, // c\n) {\n<div>x</div>\n}\n")
 	add("file-sig-comment-before-name", "package main\n\ntempl /* c */ t() {\n<div>x</div>\n}\n")
 	add("file-sig-blockcomment-in-type", "package main\n\ntempl t(a [ /* c */ ]string) {\n<div>x</div>\n}\n")
+	add("file-sig-blockcomment-newline-in-type", "package main\n\ntempl t(a [\n/* c */]string) {\n<div>x</div>\n}\n")
+	add("file-go-comment-before-import", "package main\n\nimport \"fmt\"\n/* c */ import \"strings\"\n\nvar _, _ = fmt.Sprint, strings.ToUpper\n\n"+t)
+	add("file-go-comment-before-func", "package main\n\n/* c */ func h() {}\n\n"+t)
+	add("file-sig-blockcomment-then-newline-in-type", "package main\n\ntempl t(a [/* c */\n]string) {\n<div>x</div>\n}\n")
 	add("file-sig-linecomment-in-type", "package main\n\ntempl t(a [ // c\n]string) {\n<div>x</div>\n}\n")
 	add("file-header-build-tag-only", "//go:build p\n")
 	add("file-header-build-tag-only-no-newline", "//go:build p")
